@@ -76,6 +76,33 @@ fn build(c: &Case) -> Built {
 fn ty(q: &QRCode, y: usize, x: usize) -> u8 { (q.data[y * q.size + x].0 >> 1) & 7 }
 fn val(q: &QRCode, y: usize, x: usize) -> bool { q.data[y * q.size + x].0 & 1 == 1 }
 
+/// C16: the terminal text decoded back (two half rows per line, ink = light) is the matrix with a one-module light
+/// border; half row 0 (upper half of the first line) is the un-inked spare half row.
+fn check_term(q: &QRCode, c: &Case, out: &mut Out) {
+    let n = q.size;
+    let s = match catch_unwind(AssertUnwindSafe(|| q.to_str())) {
+        Ok(s) => s,
+        Err(_) => { out.fail("C16", "to_str_panics", c, "QRCode::to_str() panicked".into()); return; }
+    };
+    let lines: Vec<Vec<char>> = s.split('\n').map(|l| l.chars().collect()).collect();
+    if lines.len() != (n + 1) / 2 + 1 { out.fail("C16", "line_count", c, format!("{} lines, expected {} for size {}", lines.len(), (n + 1) / 2 + 1, n)); return; }
+    for (k, l) in lines.iter().enumerate() {
+        if l.len() != n + 2 { out.fail("C16", "line_width", c, format!("line {} has {} characters, expected {}", k, l.len(), n + 2)); return; }
+        for (cx, ch) in l.iter().enumerate() {
+            let (t, b) = match *ch { ' ' => (true, true), '\u{2584}' => (true, false), '\u{2580}' => (false, true), '\u{2588}' => (false, false),
+                o => { out.fail("C16", "alphabet", c, format!("line {} column {} is {:?}", k, cx, o)); return; } };
+            for (r, d) in [(2 * k, t), (2 * k + 1, b)] {
+                let exp = if r == 0 { true } else if r >= 2 && r - 2 < n && cx >= 1 && cx - 1 < n { val(q, r - 2, cx - 1) } else { false };
+                if d != exp {
+                    out.fail("C16", "module_in_place", c, format!("text line {} column {} ({} half) reads dark={} but {} is dark={}", k, cx, if r % 2 == 0 { "upper" } else { "lower" }, d,
+                        if r >= 2 && r - 2 < n && cx >= 1 && cx - 1 < n { format!("module ({},{})", r - 2, cx - 1) } else { "the border".to_string() }, exp));
+                    return;
+                }
+            }
+        }
+    }
+}
+
 /// All single-build clauses.  Returns the built symbol when it is structurally sound enough for group checks.
 fn check_case(c: &Case, out: &mut Out) -> Option<Box<QRCode>> {
     let em = c.eff_mode();
@@ -105,6 +132,7 @@ fn check_case(c: &Case, out: &mut Out) -> Option<Box<QRCode>> {
     let v = ev;
     let n = side(v);
     if q.size != n { out.fail("C03", "size", c, format!("size {} expected {}", q.size, n)); return None; }
+    if out.wants("C16") { check_term(&q, c, out); }
     if q.mode.map(|m| m as usize) != Some(em) {
         out.fail(if c.mode.is_none() { "C09" } else { "C04" }, "mode_reported", c, format!("mode {:?} expected {}", q.mode, em));
         if c.mode.is_none() { return None; }
@@ -538,7 +566,7 @@ fn main() {
     let args: Vec<String> = std::env::args().collect();
     std::panic::set_hook(Box::new(|_| {}));
     let want = |s: &str| -> BTreeSet<String> {
-        if s == "all" { ["C01", "C02", "C03", "C04", "C05", "C06", "C07", "C08", "C09", "C10", "C11", "C14", "C15"].iter().map(|x| x.to_string()).collect() } else { s.split(',').map(|x| x.to_string()).collect() }
+        if s == "all" { ["C01", "C02", "C03", "C04", "C05", "C06", "C07", "C08", "C09", "C10", "C11", "C14", "C15", "C16"].iter().map(|x| x.to_string()).collect() } else { s.split(',').map(|x| x.to_string()).collect() }
     };
     if args.len() >= 5 && args[1] == "sweep" {
         let seed: u64 = args[3].parse().unwrap_or(0);
@@ -569,7 +597,7 @@ fn main() {
                     }
                 }
             }
-            let group_props = ["C08", "C11", "C01", "C02", "C03", "C04", "C06", "C07", "C15", "C10"];
+            let group_props = ["C08", "C11", "C01", "C02", "C03", "C04", "C06", "C07", "C15", "C10", "C16"];
             if group_props.iter().any(|p| out.wants(p)) { for g in &groups { check_group(g, &mut out); n_builds += 9; } }
         }
         if out.wants("C14") {
